@@ -42,7 +42,9 @@ def v(cid: int, k: int) -> float:
     return float(cid * 1000 + k * 3) + 0.5
 
 
-def scenario(sim: Sim) -> None:
+def scenario(sim: Sim, timeline_only: bool = False) -> None:
+    """`timeline_only`: used by props/c06.py - same generated formulas and delivery, missing primary samples and lag, but no
+    closed or erroring streams, and judged only on C06's clauses (consecutive timestamps, value from one timestamp)."""
     from frequenz.channels import Broadcast
     from frequenz.client.microgrid import Component, ComponentCategory, Connection, InverterType
     from frequenz.quantities import Quantity
@@ -105,7 +107,7 @@ def scenario(sim: Sim) -> None:
             for k in range(start, min(rounds, start + length)):
                 plan[(t["primary"], k)] = kind
     close: tuple[int, int] | None = None
-    if ch.chance("close_primary", 0.15):
+    if not timeline_only and ch.chance("close_primary", 0.15):
         close = (terms[ch.draw("close_term", nterms)]["primary"], ch.draw("close_round", rounds))
     fb_none_rate = ch.choice("fb_none_rate", [0.0, 0.0, 0.04])
     fb_ids = {i for t in terms for i in t["fallback"]}
@@ -120,7 +122,7 @@ def scenario(sim: Sim) -> None:
         sim.probe("primary_lagging")
     # transient (non-stop) receiver errors on primary streams
     transient: set[tuple[int, int]] = set()
-    if ch.chance("transient_errors", 0.25):
+    if not timeline_only and ch.chance("transient_errors", 0.25):
         for _ in range(1 + ch.draw("n_transient", 3)):
             transient.add((terms[ch.draw("transient_term", nterms)]["primary"], ch.draw("transient_round", rounds)))
     sim.config.update(generator="battery" if battery else ("grid" if grid else "pv"), terms=terms, bare=bare, rounds=rounds, close=close, lag={str(k): x for k, x in lag.items()})
@@ -236,6 +238,9 @@ def scenario(sim: Sim) -> None:
                           f"primary {close} closed; formula engine livelocked (no clock advance, no output); "
                           f"last outputs {out[-3:]}")
         raise
+    if timeline_only:
+        _oracle_timeline(sim, terms, bare, rounds, delivered, out)
+        return
     _oracle(sim, terms, bare, rounds, delivered, first_index, out, close, transient)
 
 
@@ -381,6 +386,50 @@ def _oracle(sim: Sim, terms: list[dict[str, Any]], bare: bool, rounds: int, deli
             sim.soft_violation("exact_sum", {"history": phase_of(k, ac), "source": src, "got": "wrong_value"},
                                f"T={k}: output {got}, expected {want} = sum over terms of (primary if valid else "
                                f"sum of fallbacks) at T={k}; T0={t0s} exact_from={exact_from} window={window}")
+
+
+def _oracle_timeline(sim: Sim, terms: list[dict[str, Any]], bare: bool, rounds: int,
+                     delivered: dict[tuple[int, int], float | None], out: list[tuple[int, float | None, bool]]) -> None:
+    """C06's clauses on a generated formula with fallback fetchers (no stream is closed or erroring here):
+    emitted timestamps advance by exactly one step, and a non-None value is the formula of the inputs stamped T
+    (each term: its primary if valid at T, else the sum of its fallback components at T)."""
+    if any(not _valid(delivered.get((t["primary"], k))) for t in terms for k in range(rounds)):
+        sim.nontrivial = True
+        sim.probe("fallback_formula_with_missing_primary")
+    ts_seq = [k for k, _, _ in out]
+    sig = {"formula": "generated_with_fallback"}
+    for a, b in zip(ts_seq, ts_seq[1:]):
+        if b != a + 1:
+            sim.soft_violation("consecutive_timestamps", dict(sig, what="repeated" if b == a else ("reordered" if b < a else "skipped")),
+                               f"output stamped T={a} followed by T={b}; sequence {ts_seq[:30]}")
+            break
+    if ts_seq and ts_seq[-1] < rounds - 1:
+        sim.soft_violation("consecutive_timestamps", dict(sig, what="stopped"),
+                           f"last output stamped T={ts_seq[-1]}, inputs delivered up to T={rounds + TAIL - 1}")
+    for k, got, _ in out:
+        if got is None or k >= rounds:
+            continue
+        want = 0.0
+        decided = True
+        for t in terms:
+            pv = delivered.get((t["primary"], k))
+            if _valid(pv):
+                want += pv  # type: ignore[operator]
+                continue
+            fbs = [delivered.get((i, k)) for i in t["fallback"]]
+            if not all(_valid(x) for x in fbs):
+                decided = False
+                break
+            want += sum(fbs)  # type: ignore[arg-type]
+        if not decided:
+            continue
+        if bare:
+            bv = delivered.get((90, k))
+            want += bv if _valid(bv) else 0.0  # type: ignore[operator]
+        if not math.isclose(got, want, rel_tol=1e-9, abs_tol=1e-6):
+            sim.soft_violation("single_timestamp", dict(sig, what="value_from_other_timestamp"),
+                               f"T={k}: output {got}, but the inputs stamped T={k} give {want}")
+            break
 
 
 # --------------------------------------------------------------------------- in-process mutants
